@@ -869,6 +869,34 @@ func p7Mutants(s p7Seed, rng *rand.Rand, nflip int) [][2]interface{} {
 		last.val = append([]byte{}, last.val[1:]...)
 		return true
 	})
+	// an element that is cut short inside one of the containers (its length overruns the container,
+	// or only its first octets are there): everything in front of it is complete
+	incomplete := func(class string, find func(sd *dnode) *dnode) {
+		edit("incomplete-element-in-"+class, func(sd *dnode) bool {
+			n := find(sd)
+			if n == nil || n.children == nil {
+				return false
+			}
+			var body []byte
+			for _, ch := range n.children {
+				body = append(body, ch.encode()...)
+			}
+			tail := pick(rng, [][]byte{{0x30, 0x10, 0x02, 0x01, 0x01}, {0x30}, {0x30, 0x82, 0x01}, {0x02, 0x05, 0x01}, {0x31, 0x81}})
+			n.val, n.children = append(body, tail...), nil
+			return true
+		})
+	}
+	incomplete("signerinfos", signerInfos)
+	incomplete("signed-attributes", attrsOf)
+	incomplete("digest-algorithms", func(sd *dnode) *dnode { return sd.at(1) })
+	incomplete("certificates", func(sd *dnode) *dnode {
+		for i, ch := range sd.children {
+			if ch.tag == 0xa0 && i >= 3 {
+				return ch
+			}
+		}
+		return nil
+	})
 	add("truncated", s.blob[:rng.Intn(len(s.blob))])
 	add("appended", append(append([]byte{}, s.blob...), randBytes(rng, 1+rng.Intn(8))...))
 	for _, content := range []string{"replace-content", "replace-content-with-empty", "spc-digest-swap", "replace-messagedigest"} {
